@@ -276,6 +276,21 @@ def search(ctx, boost=1, focus=()):
             pt_["search"] = float(pt_.get("radius_outer", pt_["radius"]))
             q["pattern"] = pt_
             ctx.count("frame_udfs_tight_search")
+        if k % 6 in (2, 4):
+            # a strip detector: the frame is narrower than the search window along one axis (or both), every window sticks out
+            # at both ends; the crop back-end that slices (sparse frames) and the one that loops (NumPy) alternate
+            c_ = int(np.ceil(q["pattern"]["search"]))
+            if c_ >= 2:
+                ax_ = int(rng.integers(2))
+                sh_ = list(q["shape"])
+                sh_[ax_] = int(rng.integers(3, 2 * c_))
+                if k % 12 == 4:
+                    sh_[1 - ax_] = int(rng.integers(3, 2 * c_))
+                q["shape"] = sh_
+                pk_ = np.asarray(q["peaks"])
+                q["peaks"] = np.stack([np.clip(pk_[:, 0], -1, sh_[0]), np.clip(pk_[:, 1], -1, sh_[1])], axis=1).tolist()
+                q["backend"] = UDF.BACKEND_SPARSE_COO if (k // 6) % 3 != 2 else UDF.BACKEND_NUMPY
+                ctx.count("frame_udfs_strip_" + str(q["backend"]))
         msgs = run_case("frame_udfs", q)
         ctx.oracle_case("frame_udfs", q, msgs, nontrivial=len(q["partitions"]) > 1)
         ctx.count("zero_shift_mode_%d" % (k % 4))
